@@ -20,7 +20,7 @@ func init() {
 					return relabel("C10", oracleC01)(o)
 				}
 				return nil
-			}, oracleC10Purge},
+			}, oracleC10Purge, oracleC10SlowStore},
 		NonTrivial: func(o *Outcome) bool {
 			n := 0
 			for k, v := range o.Hist.FaultFired {
@@ -162,6 +162,13 @@ func genC10(g *Gen) *Plan {
 	}
 	p.Default = cacheable(3, 40)
 	p.StoreFaults = storeFaults(g, 200, pick(g, 0.15, 0.3, 0.5))
+	if g.p(0.25) && nkeys > 1 {
+		// slow store: every store call completes only when nothing else can move; requests that
+		// need nothing but memory must not wait for it (all keys share one shard)
+		p.WithholdStore = true
+		p.ShardMode = "one"
+		p.Configs[0].Caches[0].Size = 1000
+	}
 	n := g.n(12, 35)
 	for i := 0; i < n; i++ {
 		switch x := g.n(0, 19); {
@@ -599,8 +606,11 @@ func oracleC10Purge(o *Outcome) []Violation {
 			if r.Key != m.Key || v.Kind != "origin" || len(v.OwnUps) > 0 || v.Up.Req < 0 || r.InvokeSeq < m.ReturnSeq {
 				continue
 			}
+			if c := cacheOf(&o.Plan.Configs[0], r.Addr); m.Cache != "" && m.Cache != c {
+				continue // the purge named another cache
+			}
 			f := o.Hist.Reqs[v.Up.Req]
-			if f == r || f.ReturnSeq < 0 || f.ReturnSeq > m.InvokeSeq {
+			if f == r || f.ReturnSeq < 0 || f.ReturnSeq > m.InvokeSeq || f.Addr != r.Addr {
 				continue
 			}
 			// served the purged reply: only acceptable if it came back from the store
@@ -613,6 +623,62 @@ func oracleC10Purge(o *Outcome) []Violation {
 			if !reloaded {
 				out = append(out, violation("C10", "purge-kept-memory-entry", "a purge whose store delete failed left the entry in memory",
 					"purge(key=%q) returned at seq %d (its store delete failed as planned); client op %d invoked at seq %d was still answered from reply #%d (fetched before the purge) although no record was read back from the store in between", m.Key, m.ReturnSeq, r.Op, r.InvokeSeq, v.Serial))
+			}
+		}
+	}
+	return out
+}
+
+// oracleC10SlowStore: with store calls withheld until nothing else can move, a request that is
+// answered from memory (no upstream contact, no store call of its own, never parked behind a
+// fetch) and that began while a store call for ANOTHER key was pending must have finished
+// before that call completed: a slow store never delays what memory can serve.
+func oracleC10SlowStore(o *Outcome) []Violation {
+	if !o.Plan.WithholdStore {
+		return nil
+	}
+	var out []Violation
+	ownStore := map[int]bool{}
+	for _, s := range o.Hist.Stores {
+		ownStore[s.Task] = true
+	}
+	for _, s := range o.Hist.Stores {
+		if s.DoneSeq < 0 || s.Serial < 0 {
+			continue
+		}
+		if s.Op == "delete" {
+			// a purge deletes from the store while holding the shard lock (that is what makes it
+			// atomic with respect to reloads of the key): other keys of the shard wait for it by design
+			continue
+		}
+		for _, v := range o.Views() {
+			r := v.R
+			if r.Key == s.Key || v.Kind != "origin" || len(v.OwnUps) > 0 || ownStore[r.Task] || r.ReleasedBy != -1 || r.BlockedSeq != 0 {
+				continue
+			}
+			// the entry really was in memory when the request began: its fetch had completed,
+			// and no store call on the request's own key overlaps the request
+			f := o.Hist.Reqs[v.Up.Req]
+			if v.Up.Req < 0 || f.ReturnSeq < 0 || f.ReturnSeq > r.InvokeSeq {
+				continue
+			}
+			busy := false
+			for _, s2 := range o.Hist.Stores {
+				overlaps := s2.CallSeq < r.ReturnSeq && (s2.DoneSeq < 0 || s2.DoneSeq > r.InvokeSeq)
+				if overlaps && (s2.Key == r.Key || s2.Op == "delete") {
+					busy = true // its own key is busy, or a purge holds the shard
+				}
+			}
+			if busy {
+				continue
+			}
+			if r.InvokeSeq > s.CallSeq && r.InvokeSeq < s.DoneSeq {
+				o.Hist.Probes["memory-hit-during-pending-store-call"]++
+				if r.ReturnSeq > s.DoneSeq {
+					out = append(out, violation("C10", "memory-hit-waited-for-store", "a response held in memory waited for a slow store call on another key",
+						"client op %d %s (answered from memory, invoked seq %d) returned at seq %d, only after the pending store %s of %q (seq %d..%d) had completed, although store calls were withheld until nothing else could move",
+						r.Op, r.Key, r.InvokeSeq, r.ReturnSeq, s.Op, s.Key, s.CallSeq, s.DoneSeq))
+				}
 			}
 		}
 	}
